@@ -22,6 +22,9 @@ FIRST = {
      "C08/a": "missed (C01 caught it)", "C08/b": "missed", "C09/a": "missed (C10 nfi)", "C09/b": "missed", "C10/a": "missed", "C11/a": "missed",
      "C12/a": "missed", "C12/b": "missed", "C13/a": "nfi", "C13/b": "missed (C12 caught it)", "C15/b": "missed", "C16/b": "missed",
      "C17/a": "missed", "C17/b": "missed", "C18/a": "missed", "C18/b": "missed", "C19/a": "missed", "C19/b": "missed", "C20/a": "missed"},
+ 7: {"C02/a": "missed", "C05/a": "missed (C01, C06 caught it)", "C07/a": "missed (C09 nfi)", "C08/a": "missed (C10 nfi)", "C09/a": "missed (C10 nfi)",
+     "C10/a": "missed", "C11/a": "missed (C10 caught it)", "C12/a": "missed", "C13/a": "missed", "C14/a": "nfi", "C16/a": "missed", "C17/a": "missed",
+     "C18/a": "missed (C10 nfi)"},
  6: {"C01/b": "missed", "C03/a": "missed", "C03/b": "missed", "C04/a": "missed", "C05/a": "missed", "C05/b": "missed (C10 nfi)",
      "C06/a": "missed", "C06/b": "missed", "C07/a": "missed", "C07/b": "missed", "C08/b": "missed (C10 nfi)", "C09/b": "missed",
      "C10/a": "missed", "C10/b": "missed", "C11/a": "missed", "C12/a": "missed", "C12/b": "missed (C15 caught it)", "C13/b": "missed",
@@ -34,7 +37,8 @@ NOT_CLAIMED = {(6, "C03/a"): _386, (6, "C06/a"): _386, (6, "C06/b"): _386, (6, "
 # seeds whose precondition was removed by a later repair of /repo: the patch still applies, but the demonstration no
 # longer fails (the patched tree is not defective any more); archived with the history, no longer run as a defect
 _LEAF = "retired: relied on DataPayload / ProprietaryMACCommandPayload.MarshalBinary returning the value's own storage; since /repo 02a1cb6 (finding C10-5) these return copies, so the shortcut seeded here writes only into a private buffer and the demonstration passes"
-NOT_CLAIMED.update({(4, "C07/a"): _LEAF, (5, "C04/b"): _LEAF, (6, "C10/b"): _LEAF,
+NOT_CLAIMED.update({(7, "C17/a"): "the asynchronous transport of backend/client.go (answer taken from a non-empty HTTP acknowledgement body instead of HandleAnswer / redis): C17 speaks about the JSON types and key envelopes, not about the transport; the synchronous path, which c17 exercises, is unchanged",
+                    (4, "C07/a"): _LEAF, (5, "C04/b"): _LEAF, (6, "C10/b"): _LEAF,
                     (6, "C15/a"): "retired: the unguarded index was reachable only for device channels outside the plan; since /repo cdfefd0 (finding C14-4) the planner drops those before any use, the demonstration passes"})
 n = 0
 for pid in sorted(os.listdir(root)):
